@@ -114,3 +114,15 @@ def make_instance(interp, env, cls: str, args: List[V], label: str = "self", kwa
 
 def is_visit_of(v: Any, path: str) -> bool:
     return isinstance(v, Sym) and v.op == "visit" and getattr(v.args[1], "path", None) == path
+
+
+def check_shared_caches(ctx, paths, rule: str, consequence: str, witness: Optional[str] = None, label: str = ""):
+    """Rule shared by several properties: a store into a class-level / module-level container must be keyed by
+    everything the stored value depends on (otherwise results leak between visitor instances / calls)."""
+    from ..heval import cache_findings
+    assumed = sorted({ev.data.get("target") for p in paths or [] for ev in p.events if ev.kind == "shared_miss_assumed"})
+    for name in assumed:
+        ctx.assume(f"lookups in the shared container {name} are analysed on the miss path; the cache-key rule ({rule}) is what "
+                   "makes a hit return the same value")
+    for key, why, where in cache_findings(paths):
+        ctx.fail(rule, key, f"{label + ': ' if label else ''}{why}; {consequence}", where, witness)
